@@ -633,6 +633,18 @@ func ReadFile(name string) ([]byte, error) {
 	}
 }
 
+// ReadDir lists a directory (sorted by name, as os.ReadDir does).
+func ReadDir(name string) ([]fs.DirEntry, error) {
+	d, err := Enter("readdir", name)
+	if err != nil {
+		return nil, err
+	}
+	if d.fail != nil {
+		return nil, d.fail
+	}
+	return os.ReadDir(name)
+}
+
 func WriteFile(name string, data []byte, perm fs.FileMode) error {
 	f, err := OpenFile(name, os.O_WRONLY|os.O_CREATE|os.O_TRUNC, perm)
 	if err != nil {
